@@ -510,6 +510,8 @@ impl fmt::Display for Value<'_> {
   fn fmt(&self, f: &mut fmt::Formatter) -> fmt::Result {
     match self {
       Value::TEXT(text) => write_text_literal(f, text),
+      // a zero written "-0" stays an int literal when printed
+      Value::INT(0) => write!(f, "-0"),
       Value::INT(i) => write!(f, "{}", i),
       Value::UINT(ui) => write!(f, "{}", ui),
       Value::FLOAT(float) => write_float(f, *float),
